@@ -176,7 +176,8 @@ add("C32", "fault_enumeration", ["dbh"], dbh("c32", ["--n", "24"], ["--n", "200"
 add("C23", "exploration", ["dbh"], dbh("c23", ["--n", "9", "--workers", "3"], ["--n", "60", "--workers", "2"]),
     "result comparison of concurrent readers against a sequential baseline, with hooked read-path counters and a seek/read gap hook",
     "Fixed databases behind Arc<RwLock<_>> on DbFile, DbAny::new_file and Db; 16 (thorough 48) reader threads run random read queries and read "
-    "transactions under the read lock while the read-gap hook yields between seek and read; every result must equal the sequential baseline. "
+    "transactions under the read lock while the read-gap hook yields between seek and read; every result must equal the sequential baseline; in every other case a further thread takes backups and copies under the "
+    "read lock next to the readers (they must succeed, the last backup must answer every read identically). "
     "Evidence shows the numbers of locked and fallback-handle file reads observed.",
     "Interleavings are those the OS scheduler produces on 16 cores with the widened window; a specific interleaving cannot be forced.",
     "DESIGN.md §6 C23")
